@@ -7,7 +7,7 @@ import (
 )
 
 func init() {
-	register("C12", "Decided: who may write the message and which handles can be handed out. R-C12-1 Message.ID is stored only in publishImpl under `ID == 0` with a freshly drawn id; R-C12-2 Topic/Payload/QoS/Retain of a caller-visible message are never stored (Subscription only by the SUBACK copy-back); R-C12-3 Dup is set from the dup parameter on every path before Pack, first transmission passes false, the retry handle true, no other callers; R-C12-4 the retry handle re-issues the enclosing call's own message; R-C12-5 after PUBREC no path or handle leads back to PUBLISH; R-C12-6 QoS 0 never yields a handle; R-C12-7 Retry re-queues exactly continuation + unattempted tail. Not decided: byte equality of retransmitted packets (follows from these + C05), applications mutating their Message during a publish.", checkC12)
+	register("C12", "Decided: who may write the message and which handles can be handed out. R-C12-1 Message.ID is stored only in publishImpl under `ID == 0` with a freshly drawn id; R-C12-2 Topic/Payload/QoS/Retain of a caller-visible message are never stored (Subscription only by the SUBACK copy-back); R-C12-3 Dup is set from the dup parameter on every path before Pack, first transmission passes false, the retry handle true, no other callers; R-C12-4 the retry handle re-issues the enclosing call's own message; R-C12-5 after PUBREC no path or handle leads back to PUBLISH; R-C12-6 QoS 0 never yields a handle; R-C12-7 Retry re-queues exactly continuation + unattempted tail (and leaves its loop early only after putting the unattempted entries back); R-C12-8 the DUP bit on the wire is Message.Dup for every QoS; R-C12-9 PUBREL is written only by the PUBREL stage of the QoS 2 publish, so no PUBREL can be followed by a PUBLISH-stage handle. Not decided: byte equality of retransmitted packets (follows from these + C05), applications mutating their Message during a publish.", checkC12)
 }
 
 // freshBase: the struct a field address belongs to was allocated in the same function (composite literal / local copy).
